@@ -47,3 +47,40 @@ func TestFallbackAgrees(t *testing.T) {
 		t.Fatalf("cvc5->z3-new fallback: %v", r)
 	}
 }
+
+// A solver process that dies (watchdog kill, crash) is replaced by a fresh one
+// in the same assertion state; the query at hand is answered by the fallback.
+func TestRespawnKeepsState(t *testing.T) {
+	c := NewCtx()
+	s, err := NewSolver("z3", c, 20000, 1)
+	if err != nil {
+		t.Skip(err)
+	}
+	defer s.Close()
+	x := c.Var("x", 32)
+	s.Assert(c.Ult(x, c.BV(100, 32)))
+	s.Push()
+	s.Assert(c.Ult(c.BV(50, 32), x))
+	s.cmd.Process.Kill()
+	if r := s.CheckWith(c.Eq(x, c.BV(60, 32))); r != Sat {
+		t.Fatalf("query during the crash: %v", r)
+	}
+	if s.Restarts != 1 || len(s.Errors) != 0 {
+		t.Fatalf("restarts %d errors %v", s.Restarts, s.Errors)
+	}
+	// the new process has both assertions
+	if r := s.CheckWith(c.Eq(x, c.BV(40, 32))); r != Unsat {
+		t.Fatalf("state lost after respawn (inner scope): %v", r)
+	}
+	s.Pop()
+	if r := s.CheckWith(c.Eq(x, c.BV(40, 32))); r != Sat {
+		t.Fatalf("pop after respawn: %v", r)
+	}
+	if r := s.CheckWith(c.Eq(x, c.BV(140, 32))); r != Unsat {
+		t.Fatalf("state lost after respawn (outer scope): %v", r)
+	}
+	r, vals := s.ModelWith([]*Term{c.Eq(x, c.BV(7, 32))}, []*Term{x})
+	if r != Sat || vals[0].Int64() != 7 {
+		t.Fatalf("model after respawn: %v %v", r, vals)
+	}
+}
